@@ -1,28 +1,2 @@
 #!/bin/bash
-# C10: scheduler-based check + free-running -race companion
-set -u
-cd /verif
-. bin/env.sh
-ID=C10; PKG=./checks/c10
-tier=quick; replay=""
-while [ $# -gt 0 ]; do
-  case "$1" in
-    quick|thorough) tier="$1"; shift;;
-    --replay) replay="$2"; shift 2;;
-    *) shift;;
-  esac
-done
-mkdir -p .build
-if ! go test -c -tags verif -o .build/$ID.test $PKG 2>.build/$ID.buildlog; then
-  cat .build/$ID.buildlog >&2
-  echo "HARNESS-ERROR: build of $ID against /repo's working tree failed" >&2
-  exit 2
-fi
-if [ -z "$replay" ]; then
-  if ! go test -c -race -tags verif -o .build/$ID.race.test $PKG 2>.build/$ID.race.buildlog; then
-    cat .build/$ID.race.buildlog >&2
-    echo "HARNESS-ERROR: -race build of $ID failed" >&2
-    exit 2
-  fi
-fi
-VERIF_TIER=$tier VERIF_REPLAY=$replay exec .build/$ID.test -test.run '^TestVerif$' -test.timeout 0
+exec /verif/bin/schedcheck.sh C10 ./checks/c10 1 "$@"
